@@ -141,6 +141,40 @@ def r_limit( ctx ):
             res.ok( src, s, 'ending = source.sent + limit (absolute position)' )
         else:
             res.bad( src, s, s, 'the ending must be the absolute position source.sent + limit' )
+    # a state that HAS a limit always gets its ending considered: between the read of self.limit and the first use of `ending` (delegate /
+    # transition) the shrink test can be by-passed only through "the limit is None" - not through the truthiness of the limit (0 is a
+    # limit), the presence of a data artifact, the logging level or any other condition
+    if stores:
+        cfgl = CFG( run, may_raise=lambda n: False )
+        tnodes = []
+        for s in stores:
+            par = src.parent.get( s )
+            if isinstance( par, ast.If ):
+                tnodes += [ n for n in cfgl.nodes if n.kind == 'test' and n.stmt is par ]
+            else:
+                tnodes += [ n for n in cfgl.nodes if n.kind == 'stmt' and n.stmt is s ]
+        LIMN = [ t.id for s_ in walk_no_nested( run ) if isinstance( s_, ast.Assign ) and pmatch( s_.value, 'self.limit' ) for t in s_.targets[:1] if isinstance( t, ast.Name ) ]
+        LIMN = LIMN[0] if LIMN else 'limit'
+        uses = [ n for n in cfgl.nodes if n.own() is not None and n not in tnodes and any( is_call_to( c, 'self.delegate', 'self.transition' ) for c in ast.walk( n.own() )) ]
+        def edge_ok( a, b, label ):
+            if a.kind == 'test' and a.expr is not None:
+                if pmatch( a.expr, '%s is not None' % LIMN ) is not None and label == 'false':
+                    return False
+                if pmatch( a.expr, '%s is None' % LIMN ) is not None and label == 'true':
+                    return False
+            return True
+        reach = cfgl.reachable( cfgl.entry, avoid=set( tnodes ), edge_ok=edge_ok )
+        by = [ u for u in uses if u in reach ]
+        if by:
+            # name the test(s) whose outcome lets the path around the shrink test
+            culprits = [ n for n in reach if n.kind == 'test' and n.expr is not None and n not in tnodes and any( m in tnodes or any( t in cfgl.reachable( m, stop=tnodes ) for t in tnodes ) for m, l in cfgl.succ[n] )
+                         and any( m not in tnodes and by[0] in cfgl.reachable( m, avoid=set( tnodes ), edge_ok=edge_ok ) for m, l in cfgl.succ[n] ) ]
+            culprits.sort( key=lambda n: n.lineno )
+            c0 = culprits[-1] if culprits else by[0]
+            res.bad( src, c0.stmt, 'the ending of a limited state is established only if %s' % ( norm_text( c0.expr ) if c0.expr is not None else '?' ),
+                     'a state with a limit (0 included) must always bound its sub-machine: this condition lets state.run reach delegate/transition with the limit ignored, so the nested parser consumes bytes beyond its limit' )
+        else:
+            res.ok( src, tnodes[0].stmt if tnodes else run, 'with a limit present the shrink test is unavoidable (only `limit is None` by-passes it)' )
     # limit resolution: string -> data.get( context( path, limit ), 0 ); callable -> call; int assert
     LM = Matcher()
     if LM.find( run, '_src = self.context( path, _src )' ) is not None and LM.find( run, '_lim = data.get( _src, 0 )' ) is not None:
